@@ -187,6 +187,13 @@ func runLim(c Case, ctl *sched.Ctl, mon *monitor, wg *sync.WaitGroup) {
 				mws[n] = handler.MaxConnsHandler(n)
 			}
 			hs[k] = mws[n](body)
+		} else if c.Obj == "maxchain" {
+			// the order of rest/engine.go: MaxConns outside Timeout outside Recover.  The body runs on
+			// the TimeoutHandler's goroutine; a panic of the body is turned into a 500 by RecoverHandler
+			if mws[n] == nil {
+				mws[n] = handler.MaxConnsHandler(n)
+			}
+			hs[k] = mws[n](handler.TimeoutHandler(time.Hour)(handler.RecoverHandler(body)))
 		} else if c.Obj == "tlimit" {
 			tls[k] = syncx.NewTimeoutLimit(n)
 		} else {
@@ -295,6 +302,8 @@ func runLim(c Case, ctl *sched.Ctl, mon *monitor, wg *sync.WaitGroup) {
 							r = 1
 						} else if rec.Code == http.StatusServiceUnavailable {
 							r = 0
+						} else if rec.Code == http.StatusInternalServerError && c.Obj == "maxchain" {
+							r = 3 // the handler's panic, as RecoverHandler reports it
 						} else {
 							r = -1
 						}
@@ -851,6 +860,64 @@ func runProbe(c Case) int64 {
 	}
 }
 
+// syncx.Cond, the wake-up discipline the TimeoutLimit model relies on (lsig): Wait blocks until a
+// Signal; one Signal wakes exactly one waiter; a Signal without a waiter is dropped, not stored.
+// R = bit mask of the five observations (31 = all as the model assumes).
+func runCond(c Case) int64 {
+	ctl := sched.New(false)
+	cond := syncx.NewCond()
+	var timedOut int32
+	ctl.Go(0, func() { ctl.Gate(0, "call", 0); cond.Wait() })
+	ctl.Go(1, func() { ctl.Gate(1, "call", 0); cond.Wait() })
+	ctl.Go(2, func() {
+		for i := 0; i < 3; i++ {
+			ctl.Gate(2, "call", i)
+			cond.Signal()
+		}
+		ctl.Gate(2, "call", 3)
+		ctl.Busy(1)
+		if _, ok := cond.WaitWithTimeout(0); !ok {
+			atomic.StoreInt32(&timedOut, 1)
+		}
+		ctl.Busy(-1)
+	})
+	st := func(o sched.StepObs, a int) int {
+		for _, x := range o.Status {
+			if x.Actor == a {
+				return x.St
+			}
+		}
+		return -1
+	}
+	var r int64
+	if _, ok := ctl.Start(stepTimeout); !ok {
+		return -1
+	}
+	o, _ := ctl.Step(0, stepTimeout)
+	if st(o, 0) == sched.StBlocked {
+		r |= 1
+	}
+	o, _ = ctl.Step(1, stepTimeout)
+	if st(o, 0) == sched.StBlocked && st(o, 1) == sched.StBlocked {
+		r |= 2
+	}
+	o, _ = ctl.Step(2, stepTimeout) // first Signal: exactly one waiter returns
+	if (st(o, 0) == sched.StDone) != (st(o, 1) == sched.StDone) {
+		r |= 4
+	}
+	o, _ = ctl.Step(2, stepTimeout) // second Signal: the other one
+	if st(o, 0) == sched.StDone && st(o, 1) == sched.StDone {
+		r |= 8
+	}
+	ctl.Step(2, stepTimeout) // third Signal: nobody waits, it must not be kept
+	ctl.Step(2, stepTimeout) // WaitWithTimeout(0)
+	if atomic.LoadInt32(&timedOut) == 1 {
+		r |= 16
+	}
+	ctl.Abort()
+	return r
+}
+
 // constructors with n <= 0
 func runCtor(c Case) int64 {
 	r := int64(1)
@@ -995,6 +1062,10 @@ func runCase(c Case) (out Out) {
 	}
 	if c.Kind == "ctor" {
 		out.R = runCtor(c)
+		return out
+	}
+	if c.Kind == "cond" {
+		out.R = runCond(c)
 		return out
 	}
 	if c.Kind == "probe" {
